@@ -64,7 +64,7 @@ func c18(r *Run) {
 	// ---- R2 -----------------------------------------------------------------------------------------
 	picks := findIns(pick, isBalPick)
 	if len(picks) == 0 {
-		broken("ANCHOR-LOST C18: Pick never calls balance.Pick()")
+		r.absentf(" C18: Pick never calls balance.Pick()")
 	}
 	for i, site := range picks {
 		ss := &Search{Fn: pick, Stop: isRun, CutEdge: cutOn(isInited)}
@@ -151,7 +151,7 @@ func c18(r *Run) {
 	openPoll := w.MustFn("openPoll")
 	opens := findIns(run, func(i ssa.Instruction) bool { return isCall(i, openPoll) })
 	if len(opens) == 0 {
-		broken("ANCHOR-LOST C18: Run never opens a poller")
+		r.absentf(" C18: Run never opens a poller")
 	}
 	for i, op := range opens {
 		opened := cmpAtom(errOfCall(op.(ssa.Value), 1), isNilConst, eqRel)
